@@ -3,6 +3,7 @@ package c11
 import (
 	"bytes"
 	"context"
+	"crypto/sha256"
 	"fmt"
 	"os"
 	"regexp"
@@ -40,6 +41,7 @@ import (
 // Every execution runs in a synctest bubble: the sequencer stamps batches with time.Now(), which is virtual and
 // does not advance (the execution is purely sequential: no loops run, nothing sleeps).
 //
+// A third deviation class (class "ioerr") makes any single durable write fail without a crash (world.KV.FailWrite).
 // Two bounded deviation classes are explored on top of the action histories: crashes at durable-write boundaries
 // (class "crash") and error answers of the execution layer to the calls of a production step (class "exec": the
 // step fails after the batch has been taken; what follows — retry, restart, more reaping — is any continuation of
@@ -74,6 +76,11 @@ const (
 	drainMax   = 10
 	knownTag   = "crash-between-batch-taken-and-first-block-save"
 	refusalTag = "queue-full-refusal"
+	// feature tags of the I/O-error class (computed from the write log position of the failed write, never from the outcome)
+	ioSaveTag = "ioerr-on-first-block-save-after-batch-taken"
+	ioDelTag  = "ioerr-on-queue-delete"
+	ioSeenTag = "ioerr-on-seen-mark"
+	ioFailTag = "handoff-failed-on-io-error"
 )
 
 // Known finding (classified NARROWLY, from the write-log position of the crash, never from the outcome): a crash
@@ -198,7 +205,8 @@ func openingsFor(mps []uint64) []opening {
 type handoff struct {
 	Txs     [][]byte
 	Refused bool
-	At      int // index of the action during which it happened
+	IOErr   bool // a durable write failed during the hand-off (deviation class "ioerr")
+	At      int  // index of the action during which it happened
 }
 
 type record struct {
@@ -210,6 +218,7 @@ type recSeq struct {
 	inner coreseq.Sequencer
 	rec   *record
 	at    *int
+	ioN   *int // number of injected write failures so far
 }
 
 func cloneTxs(txs [][]byte) [][]byte {
@@ -225,8 +234,9 @@ func (s *recSeq) SubmitBatchTxs(ctx context.Context, req coreseq.SubmitBatchTxsR
 	if req.Batch != nil {
 		txs = cloneTxs(req.Batch.Transactions)
 	}
+	io0 := *s.ioN
 	resp, err := s.inner.SubmitBatchTxs(ctx, req) // a crash inside ends this goroutine: nothing is recorded
-	s.rec.handoffs = append(s.rec.handoffs, handoff{Txs: txs, Refused: err != nil, At: *s.at})
+	s.rec.handoffs = append(s.rec.handoffs, handoff{Txs: txs, Refused: err != nil, IOErr: *s.ioN > io0, At: *s.at})
 	return resp, err
 }
 
@@ -269,6 +279,9 @@ type outcome struct {
 	crashs int
 	refuse int
 	execEr int // executor error answers injected
+	ioErr  int // durable writes made to fail (transient I/O errors)
+	ioBoot int // ... of these: during a (re)boot, after which the start-up was repeated
+	ioRef  int // hand-offs that failed on a write failure
 	finals int // SetFinal calls seen in the executor's call log
 }
 
@@ -335,10 +348,16 @@ func bubble(c *explore.Ctx, depth int, openings []opening) (out outcome) {
 		crashPos []string            // positions of the injected crashes
 		doomed   = map[string]bool{} // transactions of batches taken (queue record deleted) whose first block save did not happen before a crash
 		sawKnown bool
-		execPos  []string // positions of the injected executor errors (and what the next action was)
-		execOpen = -1     // index into execPos of an executor error whose following action is not known yet
-		limitPos []string // pending-limit features of the explored production steps (from watermarks + configuration, never from the outcome)
-		declined bool     // an explored production step ran with a backlog at the limit
+		execPos  []string              // positions of the injected executor errors (and what the next action was)
+		execOpen = -1                  // index into execPos of an executor error whose following action is not known yet
+		ioPos    []string              // positions of the injected write failures
+		ioN      int                   // their number
+		ioOpen   = -1                  // index into ioPos of a write failure whose following action is not known yet
+		ioBoot   bool                  // a write failed during the running boot attempt
+		ioLost   = map[string]bool{}   // transactions of a batch taken (queue record deleted) whose FIRST block save failed
+		ioDup    = map[string]string{} // transactions whose queue-record delete / seen-mark write failed -> feature tag
+		limitPos []string              // pending-limit features of the explored production steps (from watermarks + configuration, never from the outcome)
+		declined bool                  // an explored production step ran with a backlog at the limit
 	)
 	ev := func(f string, a ...any) { out.trace = append(out.trace, fmt.Sprintf(f, a...)) }
 
@@ -416,25 +435,93 @@ func bubble(c *explore.Ctx, depth int, openings []opening) (out outcome) {
 		return false
 	}
 
+	// Transient write failures (deviation class "ioerr"): ANY durable write of the one datastore — node store, seen-set,
+	// sequencer queue — during an explored action or a reboot may fail once: the datastore returns an error, nothing is
+	// written, the process goes on (world.KV.FailWrite, consulted after the crash hook for the same write).
+	failWrite := func(idx int, w world.Write) bool {
+		if !armed || c.Choose("ioerr", 2) == 0 {
+			return false
+		}
+		done = done[:len(done)-1] // onWrite has just logged it as completed: it is not
+		last := "none"
+		if len(done) > 0 {
+			last = kindOf(done[len(done)-1])
+		}
+		k := kindOf(w)
+		pos := fmt.Sprintf("ioerr:in[%s]after[%s]on[%s]", curKind, last, k)
+		ioPos = append(ioPos, pos)
+		ioOpen = len(ioPos) - 1
+		ioN++
+		out.ioErr++
+		if curKind == "boot" {
+			ioBoot = true
+			out.ioBoot++
+		}
+		ev("IO-ERROR write #%d %s fails, nothing written (%s)", idx, w, pos)
+		switch k {
+		case "block-save":
+			// position predicate, from the write log alone: in this production step the queue record has been deleted
+			// durably and no block save has completed since
+			taken := false
+			for _, d := range done {
+				switch kindOf(d) {
+				case "queue-delete":
+					taken = true
+				case "block-save":
+					taken = false
+				}
+			}
+			if curKind == "produce" && taken {
+				ioPos = append(ioPos, "note:a-write-failure-at-the-first-block-save-of-a-taken-batch-occurred")
+				for _, tx := range lastDel {
+					ioLost[string(tx)] = true
+				}
+			}
+		case "queue-delete":
+			for _, tx := range lastDel { // onWrite decoded the record this delete addresses
+				ioDup[string(tx)] = ioDelTag
+			}
+			lastDel = nil
+		case "seen-mark":
+			for _, tx := range [][]byte{txA, txB} {
+				if w.Ops[0].Key == "/"+fmt.Sprintf("%x", sha256.Sum256(tx)) {
+					ioDup[string(tx)] = ioSeenTag
+				}
+			}
+		}
+		return true
+	}
+
 	// boot builds all three components on the image: real sequencer (loads its queue), real manager, real reaper.
 	boot := func(img map[string][]byte) bool {
 		for {
-			curKind, done = "boot", nil
+			curKind, done, ioBoot = "boot", nil, false
 			var seqErr error
 			var cur *world.Node
 			var curSeq *recSeq
 			nn, err := world.StartNode(p, env, img, world.NodeOpts{Aggregator: true, OnWrite: onWrite, SeqImpl: func(nd *world.Node) any {
 				cur = nd
 				n = nd // onWrite reads the image of the process that is writing
+				nd.KV.FailWrite = failWrite
 				s, err := single.NewSequencerWithQueueSize(ctx, world.Logger, nd.KV, &world.DAClient{DA: env.DA, Fate: nd.Fate}, []byte(p.ChainID), time.Second, nil, true, op.QSize)
 				if err != nil {
 					seqErr = err
-					curSeq = &recSeq{inner: &world.SeqClient{Seq: env.Seq, Fate: nd.Fate}, rec: rec, at: &at}
+					curSeq = &recSeq{inner: &world.SeqClient{Seq: env.Seq, Fate: nd.Fate}, rec: rec, at: &at, ioN: &ioN}
 					return curSeq
 				}
-				curSeq = &recSeq{inner: s, rec: rec, at: &at}
+				curSeq = &recSeq{inner: s, rec: rec, at: &at, ioN: &ioN}
 				return curSeq
 			}})
+			if (seqErr != nil || (err != nil && err != world.ErrCrashedDuringStart)) && ioBoot {
+				// a start-up that fails on an I/O error is a legitimate answer; the operator starts the node again
+				e := err
+				if seqErr != nil {
+					e = seqErr
+				}
+				ev("  start-up fails: %v; the node is started again", e)
+				img = cur.KV.Image()
+				continue
+			}
 			if seqErr != nil {
 				out.viols = append(out.viols, viol{clause: "startup", msg: "the sequencer cannot start on the persisted image: " + seqErr.Error()})
 				return false
@@ -556,6 +643,10 @@ func bubble(c *explore.Ctx, depth int, openings []opening) (out outcome) {
 			execPos = append(execPos, fmt.Sprintf("exec-error-then[%s]", strings.SplitN(actNames[a], "(", 2)[0]))
 			execOpen = -1
 		}
+		if ioOpen >= 0 {
+			ioPos = append(ioPos, fmt.Sprintf("ioerr-then[%s]", strings.SplitN(actNames[a], "(", 2)[0]))
+			ioOpen = -1
+		}
 		fl = apply(fl, a)
 		crashed := false
 		switch a {
@@ -631,7 +722,12 @@ func bubble(c *explore.Ctx, depth int, openings []opening) (out outcome) {
 		execPos = append(execPos, "exec-error-then[drain]")
 		execOpen = -1
 	}
+	if ioOpen >= 0 {
+		ioPos = append(ioPos, "ioerr-then[drain]")
+		ioOpen = -1
+	}
 	quiescent := false
+	drainRestarts := 0
 	rounds := 0
 	for rounds < drainMax && !quiescent {
 		rounds++
@@ -645,9 +741,19 @@ func bubble(c *explore.Ctx, depth int, openings []opening) (out outcome) {
 			out.eng = "crash during the drain"
 			return
 		}
-		if _, ok := produce(); !ok {
+		perr, ok := produce()
+		if !ok {
 			out.eng = "crash during the drain"
 			return
+		}
+		if perr != nil {
+			// an error returned by the production step ends the aggregation loop (block/aggregation.go returns it, AggregationLoop
+			// sends it to errCh, node/full.go shuts the node down): the node is started again on its image
+			ev("drain: production step error: %v; the node stops and is started again", perr)
+			drainRestarts++
+			if !boot(n.KV.Image()) {
+				return
+			}
 		}
 		quiescent = len(rec.handoffs) == h0 && len(rec.released) == r0 && n.Height() > height0 && len(n.KV.Keys("/batches/")) == 0
 	}
@@ -656,6 +762,7 @@ func bubble(c *explore.Ctx, depth int, openings []opening) (out outcome) {
 	var tags []string
 	tags = append(tags, crashPos...)
 	tags = append(tags, execPos...)
+	tags = append(tags, ioPos...)
 	if op.MaxPending > 0 {
 		tags = append(tags, fmt.Sprintf("max-pending=%d", op.MaxPending))
 		seenL := map[string]bool{}
@@ -669,13 +776,20 @@ func bubble(c *explore.Ctx, depth int, openings []opening) (out outcome) {
 	if sawKnown {
 		tags = append(tags, "note:a-crash-at-the-known-position-occurred")
 	}
+	ioRefused := 0
 	for _, h := range rec.handoffs {
-		if h.Refused {
+		if h.Refused && h.IOErr {
+			ioRefused++
+		} else if h.Refused {
 			out.refuse++
 		}
 	}
 	if out.refuse > 0 {
 		tags = append(tags, refusalTag)
+	}
+	out.ioRef = ioRefused
+	if ioRefused > 0 {
+		tags = append(tags, ioFailTag)
 	}
 	if restarts > 0 {
 		tags = append(tags, "clean-restart")
@@ -685,6 +799,9 @@ func bubble(c *explore.Ctx, depth int, openings []opening) (out outcome) {
 	}
 	if !quiescent {
 		tags = append(tags, "drain-not-quiescent")
+	}
+	if drainRestarts > 0 {
+		tags = append(tags, "node-stopped-on-production-error-in-drain")
 	}
 	withTags := func(extra ...string) []string { return append(append([]string(nil), extra...), tags...) }
 	add := func(clause, msg string, extra ...string) {
@@ -748,11 +865,13 @@ func bubble(c *explore.Ctx, depth int, openings []opening) (out outcome) {
 		cfgStr += fmt.Sprintf(", max_pending_headers_and_data %d", op.MaxPending)
 	}
 	// clause taken-tx-committed
-	var lostKnown, lostOther []string
+	var lostKnown, lostIO, lostOther []string
 	for _, k := range taken {
 		if committed[k] == 0 {
 			if doomed[k] {
 				lostKnown = append(lostKnown, k)
+			} else if ioLost[k] {
+				lostIO = append(lostIO, k)
 			} else {
 				lostOther = append(lostOther, k)
 			}
@@ -760,6 +879,9 @@ func bubble(c *explore.Ctx, depth int, openings []opening) (out outcome) {
 	}
 	if len(lostKnown) > 0 {
 		add("taken-tx-committed", fmt.Sprintf("%s: the reaper obtained %v from GetTxs, but after %d well-formed reap+produce rounds the chain does not contain them; their batch had been removed from the sequencer's persistent queue and the process crashed before the block was first saved. chain: %s", cfgStr, lostKnown, rounds, chainStr), knownTag)
+	}
+	if len(lostIO) > 0 {
+		add("taken-tx-committed", fmt.Sprintf("%s: the reaper obtained %v from GetTxs, but after %d well-formed reap+produce rounds the chain does not contain them; their batch had been removed from the sequencer's persistent queue, then the first save of the block built from it failed with a transient I/O error (no crash) and the production step gave up: nothing holds the batch any more. chain: %s", cfgStr, lostIO, rounds, chainStr), ioSaveTag)
 	}
 	if len(lostOther) > 0 {
 		add("taken-tx-committed", fmt.Sprintf("%s: the reaper obtained %v from GetTxs, but after %d well-formed reap+produce rounds the chain does not contain them. chain: %s", cfgStr, lostOther, rounds, chainStr))
@@ -798,7 +920,12 @@ func bubble(c *explore.Ctx, depth int, openings []opening) (out outcome) {
 		sort.Strings(keys)
 		for _, k := range keys {
 			if committed[k] > offers[k] {
-				add("no-double-inclusion", fmt.Sprintf("%s: no crash happened, the mempool offered %q %d time(s) (re-offers only count after execution removed it), the chain contains it %d times. chain: %s", cfgStr, k, offers[k], committed[k], chainStr))
+				msg := fmt.Sprintf("%s: no crash happened, the mempool offered %q %d time(s) (re-offers only count after execution removed it), the chain contains it %d times. chain: %s", cfgStr, k, offers[k], committed[k], chainStr)
+				if t, ok := ioDup[k]; ok { // the failed write addressed this very transaction's queue record / seen mark
+					add("no-double-inclusion", msg, t)
+				} else {
+					add("no-double-inclusion", msg)
+				}
 			}
 		}
 	}
@@ -832,7 +959,7 @@ func bubble(c *explore.Ctx, depth int, openings []opening) (out outcome) {
 	for _, l := range limitPos {
 		limSig = append(limSig, strings.TrimPrefix(l, "limit:produce-"))
 	}
-	out.sig = fmt.Sprintf("mp%d%v|", op.MaxPending, limSig) + fmt.Sprintf("q%d|%s|refused=%d|released=%d|crash=%v|exec=%v|quiescent=%v", op.QSize, chainStr, out.refuse, len(rec.released), crashPos, execPos, quiescent)
+	out.sig = fmt.Sprintf("mp%d%v|", op.MaxPending, limSig) + fmt.Sprintf("q%d|%s|refused=%d|released=%d|crash=%v|exec=%v|io=%v|quiescent=%v", op.QSize, chainStr, out.refuse, len(rec.released), crashPos, execPos, ioPos, quiescent)
 	return
 }
 
@@ -848,7 +975,8 @@ func TestCheck(t *testing.T) {
 	if r.RunShards(16) {
 		return
 	}
-	// Deviations: crashes (class "crash") and executor error answers (class "exec"); `Faults` bounds their sum.
+	// Deviations: crashes (class "crash"), executor error answers (class "exec") and transient write failures (class
+	// "ioerr"); `Faults` bounds their sum.
 	// Without a pending limit — quick: depth 6 with at most one deviation (one crash OR one executor error). thorough:
 	// depth 8 with at most one deviation AND depth 7 with at most two (two crashes, two executor errors, or one of each
 	// in either order; depth 8 with two deviations is beyond the thorough budget).
@@ -861,14 +989,15 @@ func TestCheck(t *testing.T) {
 		Depth    int           `json:"depth"`
 		Crash    int           `json:"crash"`
 		Exec     int           `json:"exec_errors"`
-		Faults   int           `json:"crashes_plus_exec_errors"`
+		IO       int           `json:"io_errors"`
+		Faults   int           `json:"crashes_plus_exec_errors_plus_io_errors"`
 		Deadline time.Duration `json:"-"`
 		// values of node.max_pending_headers_and_data explored in this phase (0 = no limit)
 		MaxPending []uint64 `json:"max_pending_headers_and_data"`
 	}
 	phases := vf.Pick(r,
-		[]phase{{6, 1, 1, 1, 150 * time.Second, []uint64{0}}, {6, 0, 0, 0, 150 * time.Second, []uint64{1, 2}}, {5, 1, 1, 1, 150 * time.Second, []uint64{1, 2}}},
-		[]phase{{8, 1, 1, 1, 8 * time.Minute, []uint64{0}}, {7, 2, 2, 2, 17 * time.Minute, []uint64{0}}, {8, 0, 0, 0, 5 * time.Minute, []uint64{1, 2}}, {6, 1, 1, 1, 4 * time.Minute, []uint64{1, 2}}})
+		[]phase{{6, 1, 1, 1, 1, 150 * time.Second, []uint64{0}}, {6, 0, 0, 0, 0, 150 * time.Second, []uint64{1, 2}}, {5, 1, 1, 1, 1, 150 * time.Second, []uint64{1, 2}}},
+		[]phase{{8, 1, 1, 1, 1, 12 * time.Minute, []uint64{0}}, {7, 2, 2, 2, 2, 25 * time.Minute, []uint64{0}}, {8, 0, 0, 0, 0, 5 * time.Minute, []uint64{1, 2}}, {6, 1, 1, 1, 1, 6 * time.Minute, []uint64{1, 2}}})
 	if sel := os.Getenv("C11_PHASES"); sel != "" { // development aid: run only the listed phases (indices, e.g. "1,2")
 		var keep []phase
 		for i := range phases {
@@ -890,6 +1019,7 @@ func TestCheck(t *testing.T) {
 		"pending limit: node.max_pending_headers_and_data in {0 (default, no limit), 1, 2}; the DA layer is a double that accepts every blob it is sent in one call; DA back-pressure (nothing / only headers / only data acknowledged for a stretch of the history) is the absence of the action da-acks-headers / da-acks-data in that stretch; one such action = the statements of one iteration of block.HeaderSubmissionLoop / DataSubmissionLoop between two ticks (isEmpty test, getPendingHeaders + submitHeadersToDA resp. createSignedDataToSubmit + submitDataToDA, called through hooks), the ticker-driven loops themselves do not run; without a limit the watermarks are not read by reaping or production and the two actions are left out; with a limit the drain acknowledges headers and data in every round (reap, da-acks-headers, da-acks-data, produce): back-pressure ends",
 		"virtual time (synctest): the sequencer's time.Now() never goes backwards, so the 'timestamp earlier than the last block' rejection of a taken batch (manager.go) is not reachable in this world",
 		"executor error model: a failing ExecuteTxs / SetFinal returns an error and leaves the execution layer untouched (nothing executed, mempool unchanged); it is transient (the drain and all calls not chosen to fail succeed). GetTxs and InitChain never fail. SetFinal is only called by the DA-inclusion loop, which does not run in this world (calls seen are counted in first_shard_setfinal_calls_seen)",
+		"write-failure model (class ioerr): a failing durable write of the one datastore (any put, delete or batch commit of the node store, the reaper's seen-set or the sequencer's queue records) returns an error, writes nothing and leaves the process running; it is transient (every write not chosen to fail succeeds, also the retry of the same write). Reads never fail. A start-up (node or sequencer constructor) that returns an error after a write failure is a legitimate answer: the node is started again on the image. A production step that returns an error ends the aggregation loop (block/aggregation.go returns it, AggregationLoop sends it to errCh, node/full.go shuts the node down): inside the explored history every continuation follows (another step in the same process, a clean restart, ...), in the drain such a node is started again on its image",
 		"'appears in a committed block at the end' is decided after a well-formed drain: reap+produce rounds without crashes and without executor errors until one round hands nothing off, produces an empty block and leaves the queue empty (at most 10 rounds)",
 		"seen-set, queue and chain are only exercised through the real Reaper.SubmitTxs, single.Sequencer and Manager.publishBlock",
 	}
@@ -918,6 +1048,7 @@ func TestCheck(t *testing.T) {
 	// counters (guarded by a one-slot channel)
 	type counters struct {
 		refusal, crash, crashFree, knownPos, execErr, execAndCrash, plain, finals, sampExec, sampCrash int64
+		ioErr, ioBoot, ioRefused, sampIO                                                               int64
 		pruned, limited, declH, declD, declHD, declW, declWCrash, resume, acks, sampLimit              int64
 	}
 	cnt := make(chan counters, 1)
@@ -928,7 +1059,7 @@ func TestCheck(t *testing.T) {
 	for _, ph := range phases {
 		ops := openingsFor(ph.MaxPending)
 		nOpenings[fmt.Sprintf("depth %d, deviations %d, max_pending %v", ph.Depth, ph.Faults, ph.MaxPending)] = len(ops)
-		st := explore.Explore(explore.Config{Budgets: map[string]int{"crash": ph.Crash, "exec": ph.Exec}, Total: ph.Faults, Free: []string{"open", "act"}, Deadline: ph.Deadline}, func(c *explore.Ctx) {
+		st := explore.Explore(explore.Config{Budgets: map[string]int{"crash": ph.Crash, "exec": ph.Exec, "ioerr": ph.IO}, Total: ph.Faults, Free: []string{"open", "act"}, Deadline: ph.Deadline}, func(c *explore.Ctx) {
 			o := body(t, c, ph.Depth, ops)
 			if o.eng != "" {
 				r.EngineError(o.eng + " | " + strings.Join(o.trace, " ; "))
@@ -954,7 +1085,7 @@ func TestCheck(t *testing.T) {
 				}
 				if o.declW > 0 {
 					v.declW++
-					if o.crashs+o.execEr > 0 {
+					if o.crashs+o.execEr+o.ioErr > 0 {
 						v.declWCrash++
 					}
 				}
@@ -979,14 +1110,26 @@ func TestCheck(t *testing.T) {
 					v.execAndCrash++
 				}
 			}
-			if o.crashs == 0 && o.execEr == 0 {
+			if o.ioErr > 0 {
+				v.ioErr++
+			}
+			if o.ioBoot > 0 {
+				v.ioBoot++
+			}
+			if o.ioRef > 0 {
+				v.ioRefused++
+			}
+			if o.crashs == 0 && o.execEr == 0 && o.ioErr == 0 {
 				v.plain++
 			}
 			v.finals += int64(o.finals)
 			// at most three samples of each kind per process (vf keeps six)
 			sample := false
 			if len(o.viols) == 0 && o.nActs >= 5 {
-				if o.execEr > 0 && v.sampExec < 3 {
+				if o.ioErr > 0 && v.sampIO < 3 {
+					v.sampIO++
+					sample = true
+				} else if o.execEr > 0 && v.sampExec < 3 {
 					v.sampExec++
 					sample = true
 				} else if o.execEr == 0 && o.crashs > 0 && o.refuse > 0 && v.sampCrash < 3 {
@@ -999,6 +1142,14 @@ func TestCheck(t *testing.T) {
 				}
 			}
 			cnt <- v
+			if dump := os.Getenv("C11_DUMP"); dump != "" && len(o.viols) > 0 { // development aid: one line per violation
+				if f, err := os.OpenFile(dump, os.O_APPEND|os.O_CREATE|os.O_WRONLY, 0o644); err == nil {
+					for _, vi := range o.viols {
+						fmt.Fprintf(f, "%s | %v | %s\n", vi.clause, vi.tags, strings.Join(o.trace, " ; "))
+					}
+					f.Close()
+				}
+			}
 			for _, vi := range o.viols {
 				r.Report(vf.Violation{Clause: vi.clause, Tags: vi.tags, Msg: vi.msg + "\n history: " + strings.Join(o.trace, " ; "), Cost: c.Cost() + o.nActs, History: replay{ph.Depth, ph.MaxPending, c.Choices()}})
 				r.Outcome("fail:" + vi.clause)
@@ -1026,13 +1177,14 @@ func TestCheck(t *testing.T) {
 	r.Finish(vf.Coverage{
 		// States = deviation-free (no crash, no executor error) action histories executed (summed over the process shards; every shard runs the empty history)
 		Evaluations: total.Executions, DistinctNontrivial: int64(r.DistinctOutcomes()), States: v.plain, Transitions: total.Points,
-		Rule:       "for each (depth, crash, exec_errors, crashes_plus_exec_errors, max_pending_headers_and_data) phase, each queue size and each value of max_pending_headers_and_data of the phase: every enabled action history of length 0..depth over {with a pending limit only: da-acks-headers / da-acks-data = one iteration of the header / data submission loop against an accepting DA layer, enabled while headers / data are pending (an opening in which such an action finds nothing pending equals a shorter opening and is cut: these executions are part of `evaluations`, see first_shard_openings_cut_as_identity; moves the respective watermark; production steps are thereby explored with the header backlog, the data backlog, both or neither at the limit, with and without a batch waiting in the sequencer, declined and resumed; each such step is tagged limit:produce-with-backlog-at-limit[headers|data|headers+data](+batch-waiting) from configuration and watermarks); inject a, inject b, inject a again (same bytes, once execution removed it), reap = Reaper.SubmitTxs, produce = one publishBlock step, clean restart = new reaper + sequencer + manager on the same image} × every set of deviations within the phase's bounds, where a deviation is (i) a crash point among ALL durable writes of the explored actions and of the reboots (crash before the write, then reboot of all three components on the exact image; at most `crash`) or (ii) an executor error answer: any ExecuteTxs / SetFinal call the node makes during an explored action returns an error without effect on the executor (at most `exec_errors`; in this world only publishBlock's ExecuteTxs is ever called, on a block of a newly taken batch, on a new empty block or on a pending block), crashes + executor errors together at most `crashes_plus_exec_errors`; what follows an executor error is every continuation of the alphabet (retry by the next produce, clean restart, reap, injections, or the drain at once); each history is followed by a deviation-free drain of reap+produce rounds to quiescence, the four oracle clauses and world.CheckChain; executed from scratch on the real Reaper, single.Sequencer and Manager in a synctest bubble; states = deviation-free action histories; distinct = distinct (queue size, chain contents, refusals, releases, crash positions, executor-error positions and follow-up action) signatures",
+		Rule:       "for each (depth, crash, exec_errors, crashes_plus_exec_errors, max_pending_headers_and_data) phase, each queue size and each value of max_pending_headers_and_data of the phase: every enabled action history of length 0..depth over {with a pending limit only: da-acks-headers / da-acks-data = one iteration of the header / data submission loop against an accepting DA layer, enabled while headers / data are pending (an opening in which such an action finds nothing pending equals a shorter opening and is cut: these executions are part of `evaluations`, see first_shard_openings_cut_as_identity; moves the respective watermark; production steps are thereby explored with the header backlog, the data backlog, both or neither at the limit, with and without a batch waiting in the sequencer, declined and resumed; each such step is tagged limit:produce-with-backlog-at-limit[headers|data|headers+data](+batch-waiting) from configuration and watermarks); inject a, inject b, inject a again (same bytes, once execution removed it), reap = Reaper.SubmitTxs, produce = one publishBlock step, clean restart = new reaper + sequencer + manager on the same image} × every set of deviations within the phase's bounds, where a deviation is (i) a crash point among ALL durable writes of the explored actions and of the reboots (crash before the write, then reboot of all three components on the exact image; at most `crash`) or (iii) a transient write failure: ANY durable write (node store, seen-set, sequencer queue record; of an explored action or of a reboot) returns an error and writes nothing, the process goes on (at most `io_errors`; positions tagged ioerr:in[activity]after[last completed write]on[kind of the failed write], the following action ioerr-then[...]; a hand-off that fails on it counts as refused and must be retried; feature tags ioerr-on-first-block-save-after-batch-taken / ioerr-on-queue-delete / ioerr-on-seen-mark are attached only to the violation about the transactions the failed write addressed), or (ii) an executor error answer: any ExecuteTxs / SetFinal call the node makes during an explored action returns an error without effect on the executor (at most `exec_errors`; in this world only publishBlock's ExecuteTxs is ever called, on a block of a newly taken batch, on a new empty block or on a pending block), crashes + executor errors + write failures together at most `crashes_plus_exec_errors_plus_io_errors`; what follows an executor error or a write failure is every continuation of the alphabet (retry by the next produce, clean restart, reap, injections, or the drain at once); each history is followed by a deviation-free drain of reap+produce rounds to quiescence, the four oracle clauses and world.CheckChain; executed from scratch on the real Reaper, single.Sequencer and Manager in a synctest bubble; states = deviation-free action histories; distinct = distinct (queue size, chain contents, refusals, releases, crash positions, executor-error positions and follow-up action, write-failure positions and follow-up action) signatures",
 		Exhaustive: true, Caps: caps,
 		Bounds: map[string]any{"phases": phases, "queue_sizes": queueSizes, "max_pending_headers_and_data": maxPendings, "openings": nOpenings, "max_decision_points": total.MaxDepth},
 		// RunShards keeps the Extra of the first shard only: these three are per-shard figures (1/16 of the exploration)
 		Extra: map[string]any{"first_shard_histories_with_queue_full_refusal": v.refusal, "first_shard_histories_with_crash": v.crash, "first_shard_crash_free_histories": v.crashFree,
 			"first_shard_histories_with_executor_error": v.execErr, "first_shard_histories_with_executor_error_and_crash": v.execAndCrash, "first_shard_deviation_free_histories": v.plain,
-			"first_shard_setfinal_calls_seen":      v.finals,
+			"first_shard_setfinal_calls_seen":          v.finals,
+			"first_shard_histories_with_write_failure": v.ioErr, "first_shard_histories_with_write_failure_during_boot": v.ioBoot, "first_shard_histories_with_handoff_failed_on_write_failure": v.ioRefused,
 			"first_shard_openings_cut_as_identity": v.pruned, "first_shard_histories_with_pending_limit": v.limited, "first_shard_histories_with_da_acknowledgement": v.acks,
 			"first_shard_histories_with_production_at_header_limit_only": v.declH, "first_shard_histories_with_production_at_data_limit_only": v.declD,
 			"first_shard_histories_with_production_at_both_limits": v.declHD, "first_shard_histories_with_production_at_limit_and_batch_waiting": v.declW,
